@@ -45,6 +45,8 @@ def to_case(o):
     if o["k"] == "reuse":
         return "KReuse x%02x %s %s %s %s %s %s" % (o["typ"], c01.le(o["msize"]), c01.segs(bytes.fromhex(o["wire"])), c01.cvals(o["old"]),
                                                     "true" if o["reused"] else "false", c01.res(o["rec"]), c01.res(o["fresh"]))
+    if o["k"] == "over":
+        return "KOver x%02x %s %s %s %s" % (o["typ"], c01.le(o["n"]), c01.le(o["present"]), c01.le(o["appended"]), "true" if o["res"] in ("invalid", "conn") else "false")
     if o["k"] == "cut":
         return "KCut %s %s %s %s" % (c01.le(o["msize"]), c01.segs(bytes.fromhex(o["wire"])), c01.res(o["a"]), c01.res(o["b"]))
     return "KSrv %s %s" % (c01.cvals(o["sent"]), c01.cvals(o["seen"]))
@@ -54,7 +56,7 @@ def run(ctx):
     from concurrent.futures import ThreadPoolExecutor
     rc, out, obs = ctx.gotest("p9", "^TestVerifC18$", ["vh_common_test.go", "vhcl_common_test.go", "c01_codec_test.go", "c01_conn_test.go", "c18_reuse_test.go"], timeout=900)
     regobs = [o for o in obs if o["k"] == "registry"]
-    obs = [o for o in obs if o["k"] in ("reuse", "srv", "cut")]
+    obs = [o for o in obs if o["k"] in ("reuse", "srv", "cut", "over")]
     if rc != 0 or not obs or not regobs:
         # a panic in the scenario (wrong reply type, backend call count) ends the test: observations so far are still evaluated
         ctx.harness_broken("harness TestVerifC18 failed (rc=%d)" % rc, out)
@@ -98,9 +100,12 @@ def run(ctx):
             ctx.harness_broken("%d observations do not fit the schema of field paths" % len(badi), str(obs[si + nsh * badi[0]])[:400])
         for i in vlib.coq_nat_list(r["P"]):
             o = obs[si + nsh * i]
-            if o["k"] == "cut":
+            if o["k"] == "over":
+                ctx.violation("C18:over:%d" % o["typ"],
+                              "a list count not backed by the body made the decoder append beyond the first element that did not fit (or the frame was not rejected)", o)
+            elif o["k"] == "cut":
                 ctx.violation("C18:cut:%d" % o["typ"],
-                              "a frame cut mid-body was turned into different results after different earlier messages (pooled buffer content carried over)", o)
+                              "one frame gave different results after different earlier pool content (pooled buffer bytes carried over into a message)", o)
             elif o["k"] == "reuse":
                 ctx.violation("C18:reuse:%d" % o["typ"],
                               "a message decoded into a recycled object differs from the same frame decoded alone (content carried over from the previous message)", o)
@@ -122,25 +127,50 @@ def run(ctx):
         ctx.broken.append({"kind": "correspondence", "what": "gen/CodecGen.v or Codec/ReuseGen.v did not build: model agreement not evaluated"})
     reuse = [o for o in obs if o["k"] == "reuse"]
     srv = [o for o in obs if o["k"] == "srv"]
+    cut = [o for o in obs if o["k"] == "cut"]
+    over = [o for o in obs if o["k"] == "over"]
     byop = {}
     for o in srv:
         byop[o["op"]] = byop.get(o["op"], 0) + 1
+    cutres = {}
+    for o in cut:
+        k = "%s:%s/%s" % (o.get("what", "stream-cut"), o["a"]["r"], o["b"]["r"])
+        cutres[k] = cutres.get(k, 0) + 1
+    # non-trivial: a decode into an object that really was recycled and whose previous state differs from the new
+    # message; a server request with some content; a twice-received frame on which decode ran (delivered or invalid)
+    nt_reuse = {o["wire"] + str(o["old"]) for o in reuse if o["reused"] and o["rec"]["r"] == "ok" and o["old"] != o["rec"]["got"]}
+    nt_srv = {str(o["sent"]) + o["op"] for o in srv if o["op"] != "read-handover"}
+    nt_cut = {o["wire"] for o in cut if o["a"]["r"] in ("ok", "invalid")}
+
+    def pick(l, pred):
+        return next((o for o in l if pred(o) and len(str(o)) < 3000), None)
+    samples = [
+        {"role": "boundary: an empty Twalk decoded into the object that held a named walk", "case": pick(reuse, lambda o: o["typ"] == 110 and o["reused"] and o["what"] == "empty")},
+        {"role": "typical: Twalkgetattr names as the backend saw them", "case": pick(srv, lambda o: o["op"] == "walkgetattr")},
+        {"role": "lazy backend after a longer read: reply must be its bytes then zeros", "case": pick(srv, lambda o: o["op"] == "read-lazy")},
+        {"role": "malformed: body shorter than the type needs, received after two different pool poisons", "case": pick(cut, lambda o: o.get("what") == "poison" and o["at"] == 1)},
+        {"role": "malformed: list count 65535 backed by one element", "case": pick(over, lambda o: o["n"] == 65535 and o["present"] == 1)},
+    ]
     ctx.coverage.update({
         "evaluations": len(obs),
-        "distinct_nontrivial": len({o["wire"] + str(o["old"]) for o in reuse}) + len({str(o["sent"]) for o in srv}),
+        "distinct_nontrivial": len(nt_reuse) + len(nt_srv) + len(nt_cut) + len(over),
         "rule": "per registered type: 16-element lists / 1 / empty / 300-byte strings / random / 5000-byte payload twice / 3-byte payload / empty ... decoded into the "
-                "object the registry cache returned (put back after each decode); two connections to one Server: Twalk/Twalkgetattr name lists, Twrite payloads, "
-                "Tread and Treaddir replies of varying sizes, lock-step and overlapping; distinct = distinct (frame, old object state) resp. distinct request contents",
+                "object the registry cache returned (put back after each decode); frames cut in the STREAM after an earlier message (all end in ConnError on a correct tree: "
+                "they guard against recv tolerating a short read) and complete / too-short-body frames received after poisoning dataPool with 0xA5 resp. 0x5A; list counts "
+                "not backed by the body; two connections to one Server: Twalk/Twalkgetattr name lists, Twrite payloads, Tread (honest and lazy backend, whole handed buffer "
+                "inspected for leftovers) and Treaddir replies, lock-step and overlapping. distinct_nontrivial = really recycled decodes whose old state differs from the new "
+                "message + distinct server requests + twice-received frames on which decode ran + count-overrun cases",
         "recycled_decodes": sum(1 for o in reuse if o["reused"]),
         "types_exercised": len({o["typ"] for o in reuse}),
+        "twice_received_outcomes": cutres,
         "correspondence": {"cases": len(obs), "mismatches": nm, "server_ops": byop, "model_available": have_gen},
-        "samples": [next((o for o in reuse if o["typ"] == 110 and o["reused"] and len(o["wire"]) < 400), reuse[0]), (srv[1] if len(srv) > 1 else None)],
+        "samples": [x for x in samples if x["case"] is not None],
     })
 
 
 def search(ctx):
-    if ctx.thorough:
+    """One more quick-tier pass with another seed (inside ctx.search_budget_s); never an escalation to thorough."""
+    if ctx.thorough or getattr(ctx, "search_budget_s", 150) < 60:
         return
-    ctx.tier = "thorough"
-    ctx.thorough = True
+    ctx.seed += 1
     run(ctx)
